@@ -19,6 +19,14 @@ RATES = ['scalar', 'control', 'audio']
 SHORT = {'scalar': 'ir', 'control': 'kr', 'audio': 'ar'}
 
 
+# binary operators that sc3.base.builtins also offers as functions
+FUNCTION_OPS = ['absdif', 'amclip', 'atan2', 'clip2', 'difsqr', 'excess',
+                'first_arg', 'fold2', 'gcd', 'hypot', 'hypotx', 'lcm', 'max',
+                'min', 'pow', 'ring1', 'ring2', 'ring3', 'ring4', 'round',
+                'roundup', 'scaleneg', 'sqrdif', 'sqrsum', 'sumsqr', 'thresh',
+                'trunc', 'wrap2']
+
+
 class Gen:
     def __init__(self, draw, params, max_nodes):
         self.draw = draw
@@ -145,6 +153,10 @@ class Gen:
             op = self.draw(st.sampled_from(INFIX_OPS))
         else:
             op = self.draw(st.sampled_from(METHOD_OPS))
+        if not ring and self.draw(st.integers(0, 7)) == 0:
+            # the builtins with a default second argument are wrapped by a
+            # code path of their own
+            op = self.draw(st.sampled_from(['round', 'roundup', 'trunc']))
         a = self.pick_signal()
         mode = self.draw(st.integers(0, 9))
         if mode == 0:
@@ -158,7 +170,17 @@ class Gen:
             a, b = b, a    # number (or other signal) on the left
             if self.is_num(a):
                 self.labels.add('number_on_left')
-        return self.add({'k': 'bin', 'op': op, 'a': a, 'b': b})
+        node = {'k': 'bin', 'op': op, 'a': a, 'b': b}
+        if op in FUNCTION_OPS and self.draw(st.integers(0, 2)) == 0:
+            # the function spelling of sc3.base.builtins, either order
+            # (a plain number may then stand on the left)
+            node['fn'] = True
+            if self.draw(st.booleans()):
+                node['a'], node['b'] = b, a
+                if self.is_num(node['a']):
+                    self.labels.add('number_on_left_function')
+            self.labels.add('function_spelling')
+        return self.add(node)
 
     def madd(self):
         a = self.pick_signal()
